@@ -196,13 +196,13 @@ def perform(query, family, par, ch, objs=None):
     elif q == "byattr":
         from anytree import PreOrderIter, cachedsearch, search
 
-        name = "foo"
+        name = query.get("attrname", "foo")
 
         def pyval(v):
             return None if v == "none" else v
 
         for lbl, v in query["attr"].items():
-            if v != "absent":
+            if v != "absent" and name == "foo":
                 setattr(objs[lbl], name, pyval(v))
         start = objs[query["s"]]
         ml = None if query["ml"] == NOMAX else query["ml"]
